@@ -144,3 +144,128 @@ FLOORS["C18"] = {"quick": [
     (">= 10^8 components checked, kernels up to >= 4096 taps", lambda o: o["counters"]["components_checked"] >= 10 ** 8 and o["maxima"]["kernel_len_max"] >= 4096),
 ]}
 FLOORS["C18"]["thorough"] = FLOORS["C18"]["quick"]
+
+VIEW_ASSUME = ["back-ends are selected with the unsafe set_cpu_extensions on a host that supports SSE4.1 and AVX2",
+               "NEON/WASM kernels are not executable on this host"]
+
+PLANS["C03"] = {
+    "rule": "hostile call sequences (1-6 calls on one Resizer): sizes 0..28 and strips to 300, hostile crop boxes (NaN, +-inf, negative, "
+            "denormal, edge-flush, > image), every algorithm incl. SuperSampling multiplicity 0 and 255, 7 built-in and 17 custom kernels "
+            "(lobes to +-50, supports 0.01-64, anti-symmetric, 1e300-scaled), all container pairs in exact-fit placement, alpha ops, "
+            "mappers and change_type with mismatched arguments, reset/clone; judged by AddressSanitizer, the debug-assertion build, Miri "
+            "(Tree Borrows) and the H1 invariant hook; a panic is tolerated only for a custom kernel whose H1 event shows sum|w| >= 4; "
+            "sweep: coefficient windows of random geometries up to 65 535 per side checked without pixel data through the H2 accessor; "
+            "the C14 split workload and the C04 constructor workload are also run under Miri/ASan/debug assertions; "
+            "non-trivial = every sequence / geometry (all are hostile by construction); distinct = distinct descriptor",
+    "assumptions": VIEW_ASSUME + ["Miri's Tree Borrows is the aliasing model (Stacked Borrows rejects the sibling &mut band views although no byte is shared)",
+                                  "resource exhaustion (allocation failure) is not a verdict; no case needs more than 64 MB"],
+    "quick": [
+        step("asan", "firv-views", 48000),
+        step("dbg", "firv-views", 48000),
+        step("rel", "firv-views", 100000, sub="sweep"),
+        step("miri", "firv-views", 640, shards=16, timeout=3000),
+        step("miri", "firv-views", 0, sub="splits", prop_arg="C14", shards=16, timeout=3000),
+        step("miri", "firv-views", 0, sub="interleave", prop_arg="C14", shards=2, timeout=3000),
+        step("asan", "firv-views", 0, sub="quads", prop_arg="C04"),
+        step("asan", "firv-views", 30000, sub="buffers", prop_arg="C04"),
+        step("asan", "firv-views", 0, sub="splits", prop_arg="C14"),
+    ],
+    "thorough": [
+        step("asan", "firv-views", 1500000, timeout=10000),
+        step("dbg", "firv-views", 1500000, timeout=10000),
+        step("rel", "firv-views", 1500000, timeout=10000),
+        step("rel", "firv-views", 4000000, sub="sweep", timeout=10000),
+        step("miri", "firv-views", 9600, shards=16, timeout=20000),
+        step("miri", "firv-views", 0, sub="splits", prop_arg="C14", shards=16, timeout=20000),
+        step("miri", "firv-views", 0, sub="interleave", prop_arg="C14", shards=2, timeout=3000),
+        step("asan", "firv-views", 0, sub="quads", prop_arg="C04"),
+        step("asan", "firv-views", 600000, sub="buffers", prop_arg="C04"),
+        step("asan", "firv-views", 0, sub="splits", prop_arg="C14", timeout=10000),
+    ],
+}
+FLOORS["C03"] = {"quick": [
+    (">= 10^5 API calls, >= 10^4 returned errors, >= 50 tolerated panics outside the envelope (the hostile kernels do bite)",
+     lambda o: o["counters"]["api_calls"] >= 10 ** 5 and o["counters"]["returned_err"] >= 10 ** 4 and o["counters"]["panics_outside_envelope_tolerated"] >= 50),
+    ("every compiled container pair used", lambda o: len(o["sets"]["container_pairs"]) >= 19),
+    (">= 10^8 windows checked by the sweep", lambda o: o["counters"]["windows_checked"] >= 10 ** 8),
+]}
+FLOORS["C03"]["thorough"] = FLOORS["C03"]["quick"]
+
+PLANS["C04"] = {
+    "rule": "quads: exhaustive - every (left, top, width, height) in 0..=N+2 on every image 0..=N x 0..=N (N=6 quick, 9 thorough) through the "
+            "six cropped-view constructors; boundary: pool {0,1,2,W-1,W,W+1,2^31,2^32-2,2^32-1,...}^4; f64crop: random f64 boxes from a hostile "
+            "pool (NaN, +-inf, -0, negative, denormal, pred/succ of the edge, 1e300) through ResizeOptions::crop + resize; buffers: nine buffer "
+            "constructors with lengths required-2..required+2, byte offsets 0..7, 13 pixel types and sizes near 2^16/2^31/2^32 over short "
+            "buffers; oracle = exact integer predicate (TwoSum for f64), accepted views must expose exactly their rectangle of identity tags; "
+            "a zero-area box may be accepted or rejected; non-trivial = every case; distinct = distinct descriptor",
+    "assumptions": ["zero-area boxes / empty buffers: the property is silent, either outcome is accepted (never a panic)"],
+    "exhaustive": {"quick": True, "thorough": True},
+    "quick": [step("rel", "firv-views", 0, sub="quads"), step("dbg", "firv-views", 0, sub="quads"),
+              step("rel", "firv-views", 0, sub="boundary", shards=4), step("dbg", "firv-views", 0, sub="boundary", shards=4),
+              step("rel", "firv-views", 200000, sub="f64crop"), step("dbg", "firv-views", 50000, sub="f64crop"),
+              step("rel", "firv-views", 200000, sub="buffers"), step("dbg", "firv-views", 100000, sub="buffers")],
+    "thorough": [step("rel", "firv-views", 0, sub="quads"), step("dbg", "firv-views", 0, sub="quads"),
+                 step("rel", "firv-views", 0, sub="boundary", shards=4), step("dbg", "firv-views", 0, sub="boundary", shards=4),
+                 step("rel", "firv-views", 8000000, sub="f64crop", timeout=7200), step("dbg", "firv-views", 1000000, sub="f64crop", timeout=7200),
+                 step("rel", "firv-views", 8000000, sub="buffers", timeout=7200), step("dbg", "firv-views", 2000000, sub="buffers", timeout=7200)],
+}
+FLOORS["C04"] = {"quick": [
+    (">= 10^6 constructor calls with both outcomes", lambda o: o["counters"]["constructor_calls"] >= 10 ** 6 and o["counters"]["accepted"] >= 10 ** 4 and o["counters"]["rejected"] >= 10 ** 4),
+    (">= 10^5 quadruples near u32::MAX", lambda o: o["counters"]["quadruples_near_u32_max"] >= 10 ** 5),
+    (">= 20000 f64 boxes inside and >= 20000 outside", lambda o: o["counters"]["boxes_inside"] >= 20000 and o["counters"]["boxes_outside"] >= 20000),
+]}
+FLOORS["C04"]["thorough"] = FLOORS["C04"]["quick"]
+
+PLANS["C05"] = {
+    "rule": "two-run sentinel differencing: the destination backing store (exact, oversized with spare rows and a partial row, or a parent "
+            "with margins around a mutable cropped / nested view) is filled with pattern A, the call is made, refilled with the bitwise "
+            "complement pattern B and the call repeated; inside the rectangle both results must be identical, outside every byte must hold "
+            "its sentinel, the source must be unchanged, and after an error or with a zero dimension the destination must be untouched; "
+            "operations: resize (all algorithms, SuperSampling m=1..4 and 255, crops), alpha mul/div two-image and in-place, mappers "
+            "forward/backward/in-place, change_type dynamic and typed, all container pairs, three back-ends; threads step: the same under "
+            "rayon pools of 1, 2, 3, 8 threads; non-trivial = every call; distinct = distinct descriptor",
+    "assumptions": VIEW_ASSUME,
+    "quick": [step("rel", "firv-views", 160000), step("asan", "firv-views", 32000), step("rel+rayon", "firv-views", 48000, sub="threads")],
+    "thorough": [step("rel", "firv-views", 4000000, timeout=7200), step("asan", "firv-views", 800000, timeout=7200),
+                 step("rel+rayon", "firv-views", 1000000, sub="threads", timeout=7200)],
+}
+FLOORS["C05"] = {"quick": [
+    (">= 10^7 destination pixels checked, >= 1000 erroring calls, >= 1000 zero-sized calls",
+     lambda o: o["counters"]["destination_pixels_checked"] >= 10 ** 7 and o["counters"]["erroring_calls"] >= 1000 and o["counters"]["zero_sized_calls"] >= 1000),
+    ("every compiled resize container pair, >= 20 alpha paths, >= 20 mapper paths, >= 20 change_type paths",
+     lambda o: len(o["sets"]["resize_container_pairs"]) >= 19 and len(o["sets"]["alpha_paths"]) >= 20 and len(o["sets"]["mapper_paths"]) >= 20 and len(o["sets"]["change_type_paths"]) >= 20),
+]}
+FLOORS["C05"]["thorough"] = FLOORS["C05"]["quick"]
+
+PLANS["C13"] = {
+    "rule": "the same logical resize / alpha operation is executed through plain typed images (reference) and through a random compiled "
+            "container pair (10 source kinds x 7 destination kinds, typed and dynamic entry points) at a random placement (parent margins "
+            "0..3 on every side, spare rows, partial tail row, nested crops, buffers ending at the last pixel); destination pixels must be "
+            "bit-identical; non-trivial = every case; distinct = distinct descriptor",
+    "assumptions": VIEW_ASSUME,
+    "quick": [step("rel", "firv-views", 160000), step("asan", "firv-views", 32000)],
+    "thorough": [step("rel", "firv-views", 4000000, timeout=7200), step("asan", "firv-views", 800000, timeout=7200)],
+}
+FLOORS["C13"] = {"quick": [
+    ("every compiled container pair and >= 20 alpha paths used", lambda o: len(o["sets"]["container_pairs"]) >= 19 and len(o["sets"]["alpha_paths"]) >= 20),
+]}
+FLOORS["C13"]["thorough"] = FLOORS["C13"]["quick"]
+
+PLANS["C14"] = {
+    "rule": "exhaustive: 7 view kinds (owned, slice over an oversized buffer, reference, cropped, nested-cropped, mutable cropped, nested "
+            "mutable) x all view sizes 0..=N x 0..=N (N=8 quick, 20 thorough) x placements x both axes x every (start, size, parts) with "
+            "start 0..=extent+1, size 1..=extent+1, parts 1..=size+1, plus values near u32::MAX and split-of-split; parts are read through "
+            "ImageView (identity tags) and, for mutable views, written ((index+1)<<20 added) and read back through the parent: every band "
+            "pixel incremented exactly once by the right part, nothing else changed; interleave step: sibling mutable parts used alternately "
+            "row by row (also under Miri in C03); non-trivial = every (kind, size, placement); distinct = distinct descriptor",
+    "assumptions": ["NonZeroU32 arguments make size = 0 and parts = 0 unrepresentable"],
+    "exhaustive": {"quick": True, "thorough": True},
+    "quick": [step("rel", "firv-views", 0, sub="splits"), step("dbg", "firv-views", 0, sub="splits"), step("rel", "firv-views", 0, sub="interleave")],
+    "thorough": [step("rel", "firv-views", 0, sub="splits", timeout=7200), step("dbg", "firv-views", 0, sub="splits", timeout=14000),
+                 step("rel", "firv-views", 0, sub="interleave", timeout=7200)],
+}
+FLOORS["C14"] = {"quick": [
+    (">= 10^5 split calls with both outcomes, >= 10^5 mutable splits, >= 10^6 pixels read back through the parent",
+     lambda o: o["counters"]["split_some"] >= 10 ** 4 and o["counters"]["split_none"] >= 10 ** 5 and o["counters"]["mut_split_calls"] >= 10 ** 5 and o["counters"]["pixels_read_back_through_parent"] >= 10 ** 6),
+]}
+FLOORS["C14"]["thorough"] = FLOORS["C14"]["quick"]
